@@ -452,6 +452,8 @@ def _enum(tier, ops_alpha, maxlen_deltas):
         for cs in (1, 2, 3):
             for chunks in ([1], [2, 1]):
                 for md in maxlen_deltas:
+                    if md and tier == 'quick' and cs != 3:
+                        continue  # quick tier: the max-length > data variant only where 3-byte delimiters fit
                     for h in hist:
                         ops = [ops_alpha[i] for i in h]
                         if any(len(o[1]) > cs for o in ops if o[0] in ('read_until', 'pipe_until', 'delimit')):
